@@ -179,6 +179,15 @@ impl MuxStream {
                 // We have reached the congestion window limit. Wait for an `Acknowledge`
                 debug!("waiting for `Acknowledge`");
                 self.writer_waker.register(cx.waker());
+                // Re-check after registering the waker: an `Acknowledge` or a close
+                // that landed between the load above and the registration has already
+                // called `wake()` and would otherwise be lost.
+                if self.finish_sent.load(Ordering::Acquire) {
+                    return Poll::Ready(None);
+                }
+                if self.psh_send_remaining.load(Ordering::Acquire) != 0 {
+                    continue;
+                }
                 // Since all writes start with `poll_flush`, we don't need to
                 // flush here. There is actually no way to `poll_flush` without
                 // magic.
